@@ -194,6 +194,14 @@ class Checker:
             else:
                 pending.append(bid)
             c["blocks_written"] += 1
+            if pending and rng.random() < 0.08:
+                # the node drops what it has buffered (as it does after refusing a relayed block) and the same blocks arrive
+                # again (downloaded anew): they are handed over a second time and must end up in the store like any others
+                store.write_buffer.clear()
+                for b2 in pending:
+                    store.add_block_to_buffer(world.real[b2])
+                w.setdefault("buffer_dropped_and_refilled_after", []).append(k)
+                c["buffer_dropped_and_refilled"] = c.get("buffer_dropped_and_refilled", 0) + 1
             last = k == len(seq) - 1
             do_flush = last or batch_mode == "each" or (batch_mode == "random" and rng.random() < 0.4)
             if do_flush:
@@ -388,6 +396,10 @@ def replay(chk, w):
         store.add_block_to_buffer(world.real[bid])
         if bid not in written and bid not in pending:
             pending.append(bid)
+        if k in w.get("buffer_dropped_and_refilled_after", []):
+            store.write_buffer.clear()
+            for b2 in pending:
+                store.add_block_to_buffer(world.real[b2])
         if k in w.get("flush_after", []) or k == len(seq) - 1:
             try:
                 store.flush_blocks_to_disk()
@@ -441,6 +453,7 @@ def finalize(m, tier):
                    ("thread_lane_flushes_with_data", c.get("thread_lane_flushes_with_data", 0), 40),
                    ("large_store_blocks", c.get("large_store_blocks", 0), 5000),
                    ("blocks_handed_over_again", c.get("blocks_handed_over_again", 0), 50),
-                   ("batches_above_10000_blocks", c.get("batches_above_10000_blocks", 0), 2)],
+                   ("batches_above_10000_blocks", c.get("batches_above_10000_blocks", 0), 2),
+                   ("buffer_dropped_and_refilled", c.get("buffer_dropped_and_refilled", 0), 30)],
         "extra": {},
     }
